@@ -18,6 +18,7 @@ import (
 	"sort"
 	"strings"
 	"sync"
+	"syscall"
 	"time"
 )
 
@@ -143,6 +144,10 @@ func Setup() *Env {
 		e := &Env{Hash: TreeHash(), Start: time.Now()}
 		e.Work = filepath.Join(VerifRoot, "work", e.Hash)
 		must(os.MkdirAll(filepath.Join(e.Work, "bin"), 0o755))
+		// nested-module marker: keeps generated Go files under work/ out of module verif
+		if _, err := os.Stat(filepath.Join(VerifRoot, "work", "go.mod")); err != nil {
+			_ = os.WriteFile(filepath.Join(VerifRoot, "work", "go.mod"), []byte("module verifwork\n\ngo 1.25.5\n"), 0o644)
+		}
 		// prune other tree hashes (keep disk bounded)
 		if ents, err := os.ReadDir(filepath.Join(VerifRoot, "work")); err == nil {
 			for _, en := range ents {
@@ -192,6 +197,9 @@ func must(err error) {
 	}
 }
 
+// MaintainBulkCache is called before a bulk build.
+func MaintainBulkCache() { maintainBulkCache() }
+
 // Lock takes an inter-process lock (mkdir based) inside the work directory.
 func (e *Env) Lock(name string) func() {
 	p := filepath.Join(e.Work, "lock-"+name)
@@ -208,11 +216,40 @@ func (e *Env) Lock(name string) func() {
 	return func() { _ = os.Remove(p) }
 }
 
-// RunGo runs the go tool in dir (outside /repo's workspace).
+// BulkCache is a Go build cache used only for the bulk compilation of throw-away corpus packages
+// (thousands of unique packages per tree hash would otherwise grow the user's cache by gigabytes
+// per run). It is reset when it has served several corpus builds or when disk space runs low.
+var BulkCache = filepath.Join(VerifRoot, "work", "gocache")
+
+func maintainBulkCache() {
+	uses := filepath.Join(BulkCache, ".uses")
+	n := 0
+	if b, err := os.ReadFile(uses); err == nil {
+		fmt.Sscanf(string(b), "%d", &n)
+	}
+	var st syscall.Statfs_t
+	low := false
+	if err := syscall.Statfs(VerifRoot, &st); err == nil {
+		low = st.Bavail*uint64(st.Bsize) < 40<<30
+	}
+	if n >= 6 || low {
+		_ = os.RemoveAll(BulkCache)
+		n = 0
+	}
+	_ = os.MkdirAll(BulkCache, 0o755)
+	_ = os.WriteFile(uses, []byte(fmt.Sprint(n+1)), 0o644)
+}
+
+// BulkGoEnv is GoEnv with the bulk build cache.
+func BulkGoEnv(extra ...string) []string {
+	return append(GoEnv("GOCACHE="+BulkCache), extra...)
+}
+
+// RunGo runs the go tool in dir (outside /repo's workspace) with the bulk build cache.
 func RunGo(dir string, args ...string) ([]byte, error) {
 	cmd := exec.Command(GoBin, args...)
 	cmd.Dir = dir
-	cmd.Env = GoEnv()
+	cmd.Env = BulkGoEnv()
 	var buf bytes.Buffer
 	cmd.Stdout = &buf
 	cmd.Stderr = &buf
